@@ -8,6 +8,7 @@ import (
 	"os/exec"
 	"path/filepath"
 	"sort"
+	"strings"
 	"sync"
 	"time"
 
@@ -1009,8 +1010,10 @@ func mixedLengthBatch(seed uint64, sizes []int, rounds int) c18Result {
 	return out
 }
 
+var mu18 sync.Mutex
+
 func runC18(c *ev.Ctx) {
-	c.Rule = "(a) every test entry point is called on byte and bit slices whose contents and spare capacity (canary-filled) are snapshotted before and compared after; (b) each call is repeated and must be bit-identical; (c) G in {2,8,64} goroutines released together each run a seeded mix of the fifteen tests, byte/bit entry points, registry runners and both round functions on one shared buffer and on private buffers: every result must be bit-identical to the solo result; (c2) one goroutine pair per input size (2.5 kB ... 300 kB, i.e. FFT lengths 2^15 ... 2^22) released together on the length-sensitive entry points; (d) the same mixes run in a -race build and DATA RACE reports are violations; (e) the registry is unchanged. non-trivial = every call (each compares a real result vector); distinct = distinct (entry point, buffer, goroutine count, sharing)"
+	c.Rule = "(a) every test entry point is called on byte and bit slices whose contents and spare capacity (canary-filled) are snapshotted before and compared after; (b) each call is repeated and must be bit-identical; (b2) soak: every cheap entry point 70000 times (heavy ones 400) in one process, call k must equal call 1; (c) G in {2,8,64} goroutines released together each run a seeded mix of the fifteen tests, byte/bit entry points, registry runners and both round functions on one shared buffer and on private buffers: every result must be bit-identical to the solo result; (c2) one goroutine pair per input size (2.5 kB ... 300 kB, i.e. FFT lengths 2^15 ... 2^22) released together on the length-sensitive entry points; (d) the same mixes run in a -race build and DATA RACE reports are violations; (e) the registry is unchanged. non-trivial = every call (each compares a real result vector); distinct = distinct (entry point, buffer, goroutine count, sharing)"
 	c.Assumptions = []string{"the Go race detector reports only races that occur in an observed execution"}
 	seed := uint64(c.Seed)
 	before := append([]R.TestItem(nil), R.TestMethodArr...)
@@ -1068,6 +1071,51 @@ func runC18(c *ev.Ctx) {
 			}
 		}
 	})
+	// (b2) soak: the same call many times in one process (more than 2^16 for the cheap entry points):
+	// call number k must return what call number 1 returned
+	{
+		bits := gen.Seq{Fam: "slight", N: 1024, Seed: gen.Mix(seed, 1866)}.Bits()
+		data := gen.Pack(bits)
+		bools := gen.Bools(bits)
+		big := gen.Seq{Fam: "slight", N: 8968, Seed: gen.Mix(seed, 1867)}.Bits()
+		bigD, bigB := gen.Pack(big), gen.Bools(big)
+		heavy := map[string]bool{"LinearComplexity500": true, "DFT": true, "DFTBytes": true, "Round12": true, "Round15": true, "Maurer": true, "registry[13]": true, "registry[14]": true, "registry[15]": true, "MatrixRank": true}
+		calls := pureCalls(8968)
+		var soak int64
+		parallel(len(calls), func(ci int) {
+			cl := calls[ci]
+			d, b := data, bools
+			n := 70000
+			if heavy[cl.Name] || strings.HasPrefix(cl.Name, "registry") {
+				d, b = bigD, bigB
+				n = 400
+			}
+			if c.Lite() {
+				n /= 6
+			}
+			var first []float64
+			if p, m := guard(func() { first = cl.Fn(d, b) }); p {
+				c.Violation("soak:"+cl.Name+":panic", m, "c18", 0)
+				return
+			}
+			for k := 2; k <= n; k++ {
+				var got []float64
+				if p, m := guard(func() { got = cl.Fn(d, b) }); p {
+					c.Violation(fmt.Sprintf("soak:%s:call%d:panic", cl.Name, k), m, "c18", k)
+					return
+				}
+				if !sameVec(got, first) {
+					c.Violation(fmt.Sprintf("soak:%s:call%d", cl.Name, k), fmt.Sprintf("call number %d of %s on the same data returned %v, the first call returned %v", k, cl.Name, got, first), "c18", k)
+					return
+				}
+			}
+			mu18.Lock()
+			soak += int64(n)
+			mu18.Unlock()
+			c.Eval(ev.HashStr("soak|"+cl.Name), true)
+		})
+		c.Count("soak_repeated_calls", soak)
+	}
 	// (c) concurrency in this (plain) binary
 	sizes := []int{2500, 12500}
 	perG := 6
